@@ -114,13 +114,15 @@ CHECKS["C04"] = dict(
          "least the initial capacity plus everything that was live, and a cycle that did not grow the pool restores the counter exactly "
          "(Props/C04Pool). memory_pool_collection over node_pool/array_pool buckets, node operations, ALL histories (Props/C04Coll): for every bucket, free cells + live nodes "
          "served by it never decrease; the bucket's capacity() equals its number of free cells; hence once everything is released every bucket's capacity is at least its "
-         "initial capacity plus what was live; a request served from the list takes exactly one cell of that bucket, a release returns exactly one. (2) per-list facts: capacity counter = number of free nodes for every operation of the unordered list and chunk "
+         "initial capacity plus what was live; a request served from the list takes exactly one cell of that bucket, a release returns exactly one; the same with allocate_array / "
+         "try_allocate_array / deallocate_array in the history (Props/C04CollArr: the ledger counts cells, an array is its consecutive cells; an array served from the list takes exactly "
+         "its cells, a release of a held array returns exactly them). (2) per-list facts: capacity counter = number of free nodes for every operation of the unordered list and chunk "
          "capacities of the small list; allocate+release restores the unordered list exactly (arrays: as a permutation, exactly ceil(n/ns) "
          "cells both ways); ordered list: find_pos is correct for every sorted list, cursor and address; pools/collections never call the "
          "block source while the matching list holds a node; m node allocations with >= m free nodes never grow. Tied by state-dump "
          "correspondence of all three lists in rel and dbg.",
     note="multi-array cycles on the unordered list may grow although no cell is lost (fragmented list order; D15, documented limitation; "
-         "recorded finding). Collections: node operations over intrusive buckets proved (Props/C04Coll); arrays on collections and small-node buckets: per-list capacity theorems + correspondence.",
+         "recorded finding). Collections: node and array operations over intrusive buckets proved (Props/C04Coll, C04CollArr); small-node buckets: per-list capacity theorems + correspondence.",
     technique="Lean 4 proof (exact-accounting invariant by induction over histories, list invariants, find_pos correctness) + correspondence")
 CHECKS["C18"] = dict(
     text="Lean theorems over the translator-generated min_block_size formulas and the list insert models: for every node size and count "
